@@ -99,6 +99,17 @@ func destructiveDoc(b *core.Builtin) bool {
 	return false
 }
 
+// rebindsOnly: the built-in gives its place a new value and has no licence to change the old value's cells.
+func rebindsOnly(b *core.Builtin) bool {
+	n := strings.ToLower(b.Name)
+	for _, p := range []string{"pop", "push", "pushnew", "incf", "decf", "setq", "psetq"} {
+		if n == p {
+			return true
+		}
+	}
+	return false
+}
+
 func runC06(c *core.Ctx, r *core.Reporter) {
 	c.BuildSSA()
 	c06place(c, r)
@@ -286,6 +297,14 @@ func c06own(c *core.Ctx, r *core.Reporter) {
 				nonDestr = append(nonDestr, entries[root].Name)
 			}
 		}
+		// the place macros that rebind a place (pop, push, pushnew, incf, decf, setq, psetq) are licensed to give
+		// the place a new value, not to write into the cells of the list it held: other places share them
+		allRebind := len(reachedFrom[fn]) > 0
+		for root := range reachedFrom[fn] {
+			if !rebindsOnly(entries[root]) {
+				allRebind = false
+			}
+		}
 		sort.Strings(nonDestr)
 		if len(nonDestr) > 3 {
 			nonDestr = nonDestr[:3]
@@ -309,8 +328,12 @@ func c06own(c *core.Ctx, r *core.Reporter) {
 					r.Hold(rule, key, c.Pos(in.Pos()), "target list allocated in this activation")
 					continue
 				}
-				if allDestr {
+				if allDestr && !(allRebind && sinkKind(in) == "store") {
 					r.Hold(rule, key, c.Pos(in.Pos()), "reached only from built-ins documented as destructive")
+					continue
+				}
+				if allDestr && allRebind {
+					r.Violate(rule, key, c.Pos(in.Pos()), "a place macro that rebinds its place (pop, push, incf, ...) stores into a cell of the list the place held: every other reference to that list sees the change")
 					continue
 				}
 				if why, ok := ownExceptions[key]; ok {
